@@ -851,7 +851,7 @@ func (P) Generate(g *core.Gen) {
 	x.hostile()
 	x.boundary()
 	// structured messages of every kind at every gate version, with their hostile variants
-	rounds := g.N(10, 120)
+	rounds := g.N(8, 100)
 	for round := 0; round < rounds; round++ {
 		for _, kind := range kinds {
 			b := x.build(kind)
